@@ -20,7 +20,7 @@ def oracle(case, out):
         pre = None
         want = None
         if op == "new":
-            cur = b(t[4]) if t[2] not in ("stack", "stack0") else b""
+            cur = b(t[4])
         elif op == "copy": cur = b(t[2])
         elif op == "repeat": cur = b(t[3]) * int(t[2])
         elif op == "slice": cur = cur[int(t[2]):int(t[3])]
@@ -125,7 +125,13 @@ def gen_case(r):
     kind = r.choice(["heap", "arena", "arenaN", "tight", "scope", "stack", "stack0"])
     cap = r.choice([0, 1, 2, 7, 8, 15, 16, 31, 64]) if kind != "stack0" else r.choice([64, 200])
     utf = r.random() < 0.4
-    init = b"" if kind.startswith("stack") else (rutf8(r, r.randrange(0, 6)).replace(b"\x00", b"") if utf else rbytes(r, r.randrange(0, 10), b"ab\x00\xff"))
+    STK = [(8, b"abcdefgh"), (16, b"0123456789abcdef"), (24, b"0123456789abcdefghijklmn"), (8, b"abc"), (7, b"abcdefg"),
+           (32, b""), (40, b"0123456789abcdefghijklmnopqrstuvwxyzABCD"), (64, b""), (200, b"")]
+    stk = None
+    if kind.startswith("stack") and r.random() < 0.6:
+        # a real gp_str_on_stack() object of the harness (constant capacities), some filled exactly by their literal
+        stk = r.choice(STK); cap = stk[0]
+    init = stk[1] if stk else b"" if kind.startswith("stack") else (rutf8(r, r.randrange(0, 6)).replace(b"\x00", b"") if utf else rbytes(r, r.randrange(0, 10), b"ab\x00\xff"))
     init = init.replace(b"\x00", b"")      # gp_str_new takes a C string
     lines = ["str new %s %d %s" % (kind, cap, vlib.hexs(init))]
     cur = init
